@@ -307,6 +307,8 @@ class World:
         self.addr2idx = {str(a): r for r, a in REGION_ADDRS.items()}
         self.n_addons = n_addons
         self.AddonManager = AddonManager
+        self.agent_ids = {s: str(sess.agent_id) for s, sess in self.sessions.items()}
+        self.dirty = False          # a session was closed: the world cannot be brought back
         self._caps0 = {key: self._capmap(reg) for key, reg in self.regions.items()}
         self._nsess = len(self.sm.sessions)
         self.fresh()
@@ -334,6 +336,22 @@ class World:
         self.AddonManager.init([], self.sm, list(self.addons), swallow_addon_exceptions=True)
         self.em = MITMProxyEventManager(self.sm, self.ctx)
         return self
+
+    def close_session(self, s):
+        """The viewer of session s logs out: SessionManager.close_session, then every strong
+        reference the driver holds is dropped and the objects are collected (what happens in the
+        running proxy sooner or later).  The weak references inside CapData are then dead."""
+        import weakref
+        self.dirty = True
+        sess = self.sessions.pop(s)
+        refs = [weakref.ref(sess)] + [weakref.ref(self.regions.pop((s, r))) for r in (1, 2)]
+        self._caps0 = {k: v for k, v in self._caps0.items() if k[0] != s}
+        self.sm.close_session(sess)
+        del sess
+        for _ in range(3):
+            gc.collect()
+        if any(r() is not None for r in refs):
+            raise common.MachineryError("closed session/region objects are still referenced; cannot exercise SessionCloses")
 
     @staticmethod
     def _capmap(reg):
@@ -512,7 +530,7 @@ class FlowDriver:
             if self.owner == "bad":
                 hdrs.append((b"X-SecondLife-Owner-Key", b"not-a-uuid"))
             elif self.owner in ("s1", "s2"):
-                hdrs.append((b"X-SecondLife-Owner-Key", str(self.w.sessions[int(self.owner[1])].agent_id).encode()))
+                hdrs.append((b"X-SecondLife-Owner-Key", self.w.agent_ids[int(self.owner[1])].encode()))
             content = b"<llsd><string>bridge reply</string></llsd>"
         if self.salt_body:
             content = content + b"<!--" + self.salt_body + b"-->"
@@ -554,7 +572,7 @@ class FlowDriver:
         # response-phase fault: besides the malformed body, the session's and the region's HTTP
         # message handlers get a raising subscriber and a subscriber with a raising predicate
         subs = []
-        if cfg["fault"] == "cap" and self.flow.response is not None and self.tgt[1]:
+        if cfg["fault"] == "cap" and self.flow.response is not None and self.tgt[1] in w.sessions:
             for h in (w.sessions[self.tgt[1]].http_message_handler, w.regions[(self.tgt[1], self.tgt[2])].http_message_handler):
                 evt = h.register("*")
                 evt.subscribe(_raising_subscriber)
@@ -583,6 +601,8 @@ class FlowDriver:
             return "ok"
         except AssertionError:
             return "assert"
+        except Exception as e:   # anything else is an observation too (the model knows only ok / assert)
+            return "raised " + type(e).__name__
 
     async def apply(self, bad):
         q = self.w.ctx.to_proxy_queue
@@ -656,7 +676,7 @@ _WORLDS = {}
 
 def get_world(n_addons, brand_new=False) -> World:
     key = (os.getpid(), n_addons)
-    if brand_new or key not in _WORLDS:
+    if brand_new or key not in _WORLDS or _WORLDS[key].dirty:
         _WORLDS[key] = World(n_addons)
         return _WORLDS[key]
     return _WORLDS[key].fresh()
@@ -688,6 +708,8 @@ async def _run_path(path, n_addons, compare_from=None, brand_new=False):
             elif n == "Apply":
                 await fd.apply(a["bad"])
                 out = {"exc": False, "res": "bad" if a["bad"] else "ok"}
+            elif n == "SessionCloses":
+                world.close_session(a["s"])
             else:
                 raise common.MachineryError("unknown action " + n)
         except common.MachineryError:
@@ -753,7 +775,7 @@ def _replay_chunk(edge_ids):
 # ----------------------------------------------------------------------------------------
 INVARIANTS = ["AtMostOnce", "BackUnlessOwned", "OwnedNotBack", "ResumedIffBack", "TakenExclusive", "Causal",
               "HeldUntilApplied", "RoutingStable", "FlagsStable", "AttributionKept", "AppliedAttribution",
-              "InjectedSurvives"]
+              "InjectedSurvives", "GoneReadsNone"]
 
 
 def _tla_set(xs):
@@ -762,9 +784,9 @@ def _tla_set(xs):
 
 def _consts(c):
     return ("CONSTANTS\n Kinds = %s\n Pairs = %s\n Behaviours = %s\n NAddons = %d\n Faults = %s\n MaxCalls = %d\n"
-            " BadApply = %s\n Depth = 16\nCONSTRAINT Bound\nVIEW View\n" % (
+            " BadApply = %s\n CloseSet = %s\n Depth = 16\nCONSTRAINT Bound\nVIEW View\n" % (
                 _tla_set(c["kinds"]), _tla_set(c["pairs"]), _tla_set(c["behaviours"]), c["naddons"],
-                _tla_set(c["faults"]), c["maxcalls"], _tla_set(c["bad"])))
+                _tla_set(c["faults"]), c["maxcalls"], _tla_set(c["bad"]), _tla_set(c.get("close", []))))
 
 
 def _recheck_fresh(b, n_addons):
@@ -866,6 +888,9 @@ def run(chk: Check):
         "whether an injected asset response is handed to the main process at all is left open (not explored)",
         "server responses have status 200; no asset is served from the local asset repo; no cached EventQueueGet reply",
         "B2: a temporary cap URL / an EventQueueGet URL is used by one flow per world (consumed / cached otherwise)",
+        "SessionCloses = SessionManager.close_session + the session's and regions' objects unreferenced and collected "
+        "(driver drops its references and runs gc.collect(); still-referenced objects are a MachineryError); B1 explores one "
+        "closing per flow after its first event was handled, B2 closes at any time",
         "B2 reads MITMProxyEventManager._asset_server_proxied (state kept across flows) through a reflection bridge",
     ]
     F3 = ["none", "cap", "logger"]
@@ -874,6 +899,8 @@ def run(chk: Check):
         _b1(chk, dict(kinds=KINDS, pairs=[21], behaviours=ALLB, naddons=1, faults=F3, maxcalls=1, bad=[False, True]), "N1-s2r1")
         _b1(chk, dict(kinds=["normal", "seed"], pairs=[12], behaviours=ALLB, naddons=1, faults=F3, maxcalls=1, bad=[False]), "N1-s1r2")
         _b1(chk, dict(kinds=["normal", "proxyonly"], pairs=[22], behaviours=B6, naddons=2, faults=["none"], maxcalls=1, bad=[False]), "N2")
+        _b1(chk, dict(kinds=["normal", "seed", "none"], pairs=[21], behaviours=["ignore", "take", "takeResume", "inject", "raise"],
+                      naddons=1, faults=["none"], maxcalls=1, bad=[False], close=[1, 2]), "close")
         _b2(chk, 96, 4, "walks")
     else:
         owned = [k for k in KINDS if k not in ("none", "login", "asset")]
@@ -882,6 +909,8 @@ def run(chk: Check):
                           bad=[False, True]), "N1-s%dr%d" % (p // 10, p % 10))
         _b1(chk, dict(kinds=["normal", "wrapper", "proxyonly", "none"], pairs=[12], behaviours=ALLB, naddons=2, faults=["none", "cap"],
                       maxcalls=1, bad=[False]), "N2")
+        _b1(chk, dict(kinds=["normal", "seed", "eq", "wrapper", "proxyonly", "none"], pairs=[12], behaviours=ALLB, naddons=1,
+                      faults=["none", "cap"], maxcalls=2, bad=[False], close=[1, 2]), "close")
         _b2(chk, 1600, 5, "walks")
     if chk.cov.get("b1_raise_points_expected", 0) and not chk.cov.get("b1_raise_points_reached", 0) and not chk.violations:
         raise common.MachineryError("no scripted fault ever made pump_proxy_event raise: fault injection is vacuous")
@@ -892,7 +921,7 @@ def run(chk: Check):
 # B2: random multi-flow runs, one recorded trace per flow
 # ----------------------------------------------------------------------------------------
 TRACE_CFG = ("SPECIFICATION TraceSpec\nCONSTANTS\n Kinds = %s\n Pairs = {11, 12, 21, 22}\n Behaviours = %s\n NAddons = 3\n"
-             " Faults = {\"none\", \"cap\", \"logger\"}\n MaxCalls = 1000\n BadApply = {FALSE, TRUE}\n"
+             " Faults = {\"none\", \"cap\", \"logger\"}\n MaxCalls = 1000\n BadApply = {FALSE, TRUE}\n CloseSet = {1, 2}\n"
              "POSTCONDITION TraceAccepted\nCHECK_DEADLOCK FALSE\n" % (_tla_set(KINDS), _tla_set(BEHAVIOURS)))
 
 
@@ -968,6 +997,8 @@ async def _random_run(seed, n_flows, n_addons=3):
                     choices.append(("iresp", rec))
             if rec.fd.main is not None and rec.calls < 2:
                 choices.append(("call", rec))
+        if not world.dirty and _step > 2 and rng.random() < 0.06:
+            choices.append(("close", recs[0]))
         if order_from:
             choices += [("handle", order_from[0])] * 3
         if order_to:
@@ -976,7 +1007,12 @@ async def _random_run(seed, n_flows, n_addons=3):
             break
         what, rec = rng.choice(choices)
         fd = rec.fd
-        if what == "ireq":
+        if what == "close":
+            s_closed = rng.choice((1, 2))
+            world.close_session(s_closed)
+            for r2 in recs:     # every flow of the world lives through it
+                r2.events.append({"ev": "SessionCloses", "s": s_closed, "mf": _mf(r2) if r2.fd.main is not None else None})
+        elif what == "ireq":
             browser, hdr = rng.random() < 0.25, rng.random() < 0.3
             fd.intercept_request(browser, hdr)
             by_id[fd.flow.id] = rec
